@@ -986,6 +986,95 @@ def gen_contents_dups(rng, tables, maxrows):
     return out
 
 
+# ----------------------------------------------------------------------------- name scoping (round 6, old escapes)
+def gen_scopes(rng, cat):
+    """the same CTE / alias name defined in sibling scopes (branches of a set operation, two derived tables of a join) and in
+    nested scopes (a sub-query or a derived table inside a statement whose own WITH uses the name) with DIFFERENT bodies"""
+    feats = ['scopes', 'cte']
+    A = rng.choice(TABLES)
+    B = rng.choice([t for t in TABLES if t[0] != A[0]])
+    name = 'w' if rng.random() < 0.8 else rng.choice([t for t in TABLES if t not in (A, B)])[1]
+
+    def body(t):
+        w = ''
+        if rng.random() < 0.3:
+            w = ' WHERE %s %s %d' % (rng.choice(COLS), rng.choice(CMP), rng.randrange(3))
+        return 'SELECT id, x, y FROM %s.%s%s' % (t[0], t[1], w)
+    bA, bB = body(A), body(B)
+    tabs = [A, B]
+    shape = rng.choice(['union', 'union', 'join2', 'join2', 'nested-sub', 'nested-derived', 'alias-union', 'alias-nested', 'union3'])
+    feats.append('scope:' + shape)
+    k = rng.choice([1, 2, 3])
+    cols = rng.sample(COLS, k)
+    ref = None
+    names = None
+    if shape in ('union', 'union3'):
+        op = rng.choice(['UNION ALL', 'UNION ALL', 'UNION', 'EXCEPT', 'INTERSECT'])
+        l = 'WITH %s AS (%s) SELECT %s FROM %s' % (name, bA, ', '.join(cols), name)
+        r = 'WITH %s AS (%s) SELECT %s FROM %s' % (name, bB, ', '.join(rng.sample(COLS, k)), name)
+        body_, ref = '%s %s %s' % (l, op, r), 'SELECT * FROM (%s) %s SELECT * FROM (%s)' % (l, op, r)
+        if shape == 'union3':
+            C = rng.choice([t for t in TABLES if t not in (A, B)])
+            tabs.append(C)
+            t3 = 'WITH %s AS (%s) SELECT %s FROM %s' % (name, body(C), ', '.join(rng.sample(COLS, k)), name)
+            body_, ref = body_ + ' UNION ALL ' + t3, ref + ' UNION ALL SELECT * FROM (%s)' % t3
+        return Q('scopes', cat, body_, tables=tabs, feats=feats, ref_body=ref)
+    if shape == 'join2':
+        jk = rng.choice(JOIN_KINDS)
+        feats.append('join:' + jk)
+        body_ = 'SELECT s.%s, t.%s FROM (WITH %s AS (%s) SELECT id, x, y FROM %s) AS s %s (WITH %s AS (%s) SELECT id, x, y FROM %s) AS t ON s.id = t.%s' % (
+            rng.choice(COLS), rng.choice(COLS), name, bA, name, jk, name, bB, name, rng.choice(['id', 'id', 'x']))
+    elif shape == 'nested-sub':
+        body_ = 'WITH %s AS (%s) SELECT %s FROM %s WHERE %s %sIN (WITH %s AS (%s) SELECT %s FROM %s)' % (
+            name, bA, ', '.join(cols), name, rng.choice(COLS), rng.choice(['', 'NOT ']), name, bB, rng.choice(COLS), name)
+    elif shape == 'nested-derived':
+        jk = rng.choice(['JOIN', 'LEFT JOIN', 'LEFT JOIN'])
+        body_ = 'WITH %s AS (%s) SELECT s.x, %s.y FROM (WITH %s AS (%s) SELECT id, x FROM %s) AS s %s %s ON %s.id = s.id' % (
+            name, bA, name, name, bB, name, jk, name, name)
+    elif shape == 'alias-union':
+        op = rng.choice(['UNION ALL', 'UNION', 'EXCEPT'])
+        l = 'SELECT %s FROM (%s) AS s' % (', '.join('s.' + c for c in cols), bA)
+        r = 'SELECT %s FROM (%s) AS s' % (', '.join('s.' + c for c in rng.sample(COLS, k)), bB)
+        body_ = '%s %s %s' % (l, op, r)
+    else:
+        body_ = 'SELECT %s FROM (SELECT s.id, s.x, s.y FROM %s.%s AS s WHERE s.%s %s %d) AS s JOIN %s.%s AS t ON t.id = s.id' % (
+            ', '.join('s.' + c for c in cols), A[0], A[1], rng.choice(COLS), rng.choice(CMP), rng.randrange(3), B[0], B[1])
+    return Q('scopes', cat, body_, tables=tabs, feats=feats, ref_body=ref)
+
+
+def gen_derived_join(rng, cat):
+    """a join whose operand is a derived table that is itself a federated join (planned by a nested join planner), with a LATER
+    table joined on a column of the derived table"""
+    feats = ['derived-join']
+    ts = rng.sample(TABLES, 4)
+    A, C, D, B = ts
+    if C[0] == D[0]:
+        D = rng.choice([t for t in TABLES if t[0] != C[0] and t not in (A, B)])
+    jk1, jk2, jk3 = (rng.choice(['JOIN', 'JOIN', 'LEFT JOIN', 'INNER JOIN']) for _ in range(3))
+    ox, oy = rng.choice(['c', 'd']), rng.choice(['c', 'd'])
+    derived = '(SELECT %s.%s AS x, %s.%s AS y FROM %s.%s AS c %s %s.%s AS d ON c.%s = d.%s) AS s' % (
+        ox, rng.choice(COLS), oy, rng.choice(COLS), C[0], C[1], jk2, D[0], D[1], rng.choice(['id', 'id', 'x']), rng.choice(['id', 'id', 'x']))
+    r = rng.random()
+    if r < 0.5:
+        feats.append('derived:middle')
+        frm = '%s.%s AS a %s %s ON s.x = a.%s %s %s.%s AS b ON b.%s = s.y' % (A[0], A[1], jk1, derived, rng.choice(COLS), jk3, B[0], B[1], rng.choice(COLS))
+        sel = ['a.id', 's.x', 's.y', 'b.id', 'b.x']
+        tabs = [A, C, D, B]
+    elif r < 0.8:
+        feats.append('derived:first')
+        frm = '%s %s %s.%s AS b ON b.%s = s.%s' % (derived, jk3, B[0], B[1], rng.choice(COLS), rng.choice(['x', 'y']))
+        sel = ['s.x', 's.y', 'b.id', 'b.y']
+        tabs = [C, D, B]
+    else:
+        feats.append('derived:last')
+        frm = '%s.%s AS a %s %s ON s.%s = a.%s' % (A[0], A[1], jk1, derived, rng.choice(['x', 'y']), rng.choice(COLS))
+        sel = ['a.id', 'a.x', 's.x', 's.y']
+        tabs = [A, C, D]
+    cols = rng.sample(sel, rng.choice([2, 3]))
+    where = ' WHERE %s %s %d' % (rng.choice(sel), rng.choice(CMP), rng.randrange(3)) if rng.random() < 0.25 else ''
+    return Q('derived', cat, 'SELECT %s FROM %s%s' % (', '.join(cols), frm, where), tables=tabs, feats=feats)
+
+
 def gen_query(rng):
     """a query of any kind; about one in six is rewritten under a naming whose names need quoting"""
     q = gen_query_plain(rng)
@@ -1005,6 +1094,10 @@ def gen_query_plain(rng):
         return gen_aggnest(rng, cat)
     if r < 0.32:
         return gen_setops(rng, cat)
+    if r < 0.36:
+        return gen_scopes(rng, rng.choice(['default', 'default', 'project']))
+    if r < 0.40:
+        return gen_derived_join(rng, cat)
     if r < 0.58:
         return gen_join(rng, cat)
     if r < 0.70:
